@@ -56,7 +56,7 @@ def run_shard(shard, ctx):
     diag = "Diag" in kind
     sys_ = _graph.GaussSystem(D, seed, 0, "full", 4, dict(label="ctor", t="measure"), checks=("mass",))
     for R in BOUNDS[tier]["ctor"]["R"]:
-        for vi in ([0, 1, 100, objs.HARD] if tier == "quick" else [0, 1, 2, 3, 100, 101, objs.HARD]):
+        for vi in ([0, 1, 100, objs.HARD] if tier == "quick" else [0, 1, 2, 3, 100, 101, 102, 103, 104, 105, objs.HARD]):
             for mode in ("Sigma", "Sigma+Lambda", "Sigma+Lambda+lndet"):
                 if not ctx.case(dict(R=R, vi=vi, mode=mode)):
                     continue
